@@ -39,7 +39,11 @@ func at(wg *sync.WaitGroup, d time.Duration, f func()) {
 
 func scenario(t *testing.T, name, role string) {
 	synctest.Test(t, func(t *testing.T) {
-		r, err := sess.NewRig(sess.Cfg{Role: role, HbMin: 1, HbMax: 60, HbCfg: 1, EncCfg: "0", CloseMs: 500, Buf: 10})
+		slow := 0
+		if name == "calls_during_slow_logon" {
+			slow = 100
+		}
+		r, err := sess.NewRig(sess.Cfg{Role: role, HbMin: 1, HbMax: 60, HbCfg: 1, EncCfg: "0", CloseMs: 500, Buf: 10, SlowLogonMs: slow})
 		if err != nil {
 			t.Fatalf("DRIVER-ERROR %v", err)
 		}
@@ -118,6 +122,12 @@ func scenario(t *testing.T, name, role string) {
 			at(&wg, 2*Tin+200*time.Millisecond, func() { _ = r.S.IsLogged() })
 			at(&wg, 2*Tin+200*time.Millisecond, func() { inbound(r, &pseq, &pmu, "hbt", nil) })
 			at(&wg, 2*Tin+400*time.Millisecond, send)
+		case "calls_during_slow_logon": // the application stops / logs out / queries while its own (slow) logon callback is still running
+			at(&wg, 0, func() { inbound(r, &pseq, &pmu, "logon", nil) })
+			at(&wg, 50*time.Millisecond, func() { _ = r.S.IsLogged() })
+			at(&wg, 50*time.Millisecond, send)
+			at(&wg, 60*time.Millisecond, func() { _ = r.S.Logout() })
+			at(&wg, 70*time.Millisecond, func() { _ = r.S.Stop() })
 		case "testrequest_answer_vs_queries": // the session's own TestRequest is answered (by any message) while the application queries the state
 			logon()
 			for k, ans := range []string{"hbt", "app", "testreq", "hbt"} {
